@@ -14,6 +14,10 @@ The same oracle judges a Dask stream: the five public functions on Dask-backed r
 1-cell chunks, one chunk, row / column strips, random compositions), so that "the full 3x3 window, applied
 `passes` times" and "the cells under the kernel" are checked against the property text on every backend the
 functions accept -- not through a NumPy-vs-Dask comparison (that is C01's subject).
+Layer T3: stream `il:convolve2d` -- the ILang program `Gen.IL.convolve2d` (generated statement by statement from
+`_convolve_2d_numpy`; the subject of the refinement theorems `il_convolve_refines` / `il_conv_cell` / `il_conv_finite`) is run by
+the Lean driver and compared exactly with the numba-compiled function of /repo (il_corr.py); streams `il:meanNumpy`,
+`il:applyMean` ... `il:applyVar` do the same for the generated programs of `_mean_numpy` / `_apply_numpy` (translator validation only).
 """
 import json
 import math
@@ -22,6 +26,7 @@ import os
 import numpy as np
 import xarray as xr
 
+import il_corr
 from common import Driver, close, tok, untok
 
 PROP = "C09"
@@ -865,6 +870,13 @@ def run(r, scale=1):
     process(r, s_hot(r.rng, sz["hot"] * scale), "hotspots")
     process(r, s_malformed(r.rng, sz["malformed"] * scale), "malformed")
     process(r, s_dask(r.rng, sz["dask"] * scale), "dask")
+    # layer T3: the generated ILang program of `_convolve_2d_numpy` (subject of il_convolve_refines) against the numba
+    # function: result array and both inputs after the call, compared exactly on exactly computable inputs
+    il_corr.stream(r, ["convolve2d"], (600 if r.tier == "quick" else 6000) * scale)
+    # the other focal programs of layer T3 (`_mean_numpy`, `_apply_numpy` bound to each of the seven statistic functions):
+    # translator validation only -- no refinement theorem yet, the model of Part A/B is tied to them by G + H above
+    il_corr.stream(r, ["meanNumpy", "applyMean", "applySum", "applyMin", "applyMax", "applyRange", "applyStd", "applyVar"],
+                   (100 if r.tier == "quick" else 1000) * scale)
     r.trusted += ["numba / numpy (np.nanmean, np.nansum, np.nanmin, np.nanmax, np.nanstd, np.nanvar are modelled by hand and "
                   "validated by the correspondence run)", "xarray DataArray construction"]
     r.assumptions += ["exact field arithmetic in the value theorems (float32 rounding covered by the correspondence run only)",
@@ -880,6 +892,10 @@ def search(r):
 
 def replay(r, body):
     c = body["case"]
+    if "prog" in c:                       # a case of an il:<prog> stream (translator validation, layer T3)
+        bad = il_corr.replay_case(c)
+        print("still disagrees" if bad else "does not fail on the current tree")
+        return bad
     if c.get("kind") in ("equal_numpy", "hot_class"):
         check_scalars(r)
         bad = r.failures or r.disagreements
